@@ -7,9 +7,9 @@ PID = 'C06'
 SP = os.path.join(V.SPEC, 'avoid')
 
 
-def gen_histories(d, n, hlen, steps, seed, quick):
+def gen_histories(d, n, hlen, steps, seed, quick, shapes_only=False):
     cfg = os.path.join(d, 'histgen.cfg')
-    open(cfg, 'w').write('SPECIFICATION Spec\nCONSTANTS\n ShapeIds = {1, 2, 3}\n ConnIds = {1, 2}\n HLEN = %d\n MAXSTEPS = %d\n PACE = 3\nINVARIANTS EmitHist\nCHECK_DEADLOCK FALSE\n' % (hlen, steps))
+    open(cfg, 'w').write('SPECIFICATION Spec\nCONSTANTS\n ShapeIds = {1, 2, 3}\n ConnIds = {1, 2}\n HLEN = %d\n MAXSTEPS = %d\n PACE = 3\n SHAPESONLY = %s\nINVARIANTS EmitHist\nCHECK_DEADLOCK FALSE\n' % (hlen, steps, 'TRUE' if shapes_only else 'FALSE'))
     r = V.tlc(os.path.join(SP, 'RouterApiMC.tla'), cfg, timeout=600, simulate='num=%d' % (n * 2), extra=['-depth', str(hlen + 2)], seedv=seed, workers=4)
     hs = V.emitted_histories(r.out)
     rnd = random.Random(seed)
@@ -66,6 +66,22 @@ def butt_histories():
     return out
 
 
+def wall_histories():
+    """a routed connector, an unrelated shape moved, then a wall across the connector together with a post that blocks the short way
+    round it, then the post taken away again (deleted, or moved off): the connector "could take a shorter path after a shape is removed
+    or moved away" -- the statement's own example, as a history of four transactions.  Both mirror images."""
+    out = []
+    for flip in (False, True):
+        f = (lambda r: [r[0], 14 - r[3], r[2], 14 - r[1]]) if flip else (lambda r: r)
+        by, wall, post = f([10, 10, 12, 12]), f([6, 2, 8, 13]), f([2, 0, 5, 7])
+        pre = [[1, 1] + by, [5], [2, 1, 0, 2 if not flip else -2], [5], [1, 2] + wall, [1, 3] + post, [5]]
+        out.append(pre + [[3, 3], [5]])
+        out.append(pre + [[2, 3, 0, -8 if not flip else 8], [5]])
+        out.append(pre + [[3, 3], [5], [5]])
+        out.append([[1, 1] + by, [5], [1, 2] + wall, [1, 3] + post, [5], [2, 1, 0, 2 if not flip else -2], [5], [3, 3], [5]])
+    return out
+
+
 def trace_lines(h, res):
     lines = [{'e': 'Reset'}]
     stepat = {s['op']: s for s in res['steps']}
@@ -100,7 +116,7 @@ def main(tier):
     d = V.rundir('c06')
     # ---- design level: the queue rules for every interleaving
     cfgm = os.path.join(d, 'mc.cfg')
-    open(cfgm, 'w').write('SPECIFICATION Spec\nCONSTANTS\n ShapeIds = {1, 2}\n ConnIds = {1}\n HLEN = %d\n MAXSTEPS = %d\n PACE = 0\nINVARIANTS QueueWellFormed SceneIsWhatWasAskedFor\nVIEW View\nCHECK_DEADLOCK FALSE\n'
+    open(cfgm, 'w').write('SPECIFICATION Spec\nCONSTANTS\n ShapeIds = {1, 2}\n ConnIds = {1}\n HLEN = %d\n MAXSTEPS = %d\n PACE = 0\n SHAPESONLY = FALSE\nINVARIANTS QueueWellFormed SceneIsWhatWasAskedFor\nVIEW View\nCHECK_DEADLOCK FALSE\n'
                           % ((4, 2) if quick else (5, 3)))
     r = V.tlc(os.path.join(SP, 'RouterApiMC.tla'), cfgm, timeout=2400, mem='24g')
     ev.add_tlc('design: RouterApiMC, every interleaving of add/move/delete/move-endpoint/process/setTransactionUse', r)
@@ -108,11 +124,15 @@ def main(tier):
         vd.violation('design:' + r.violated[0], 'RouterApi violates %s at design level' % r.violated[0], {'tlc_tail': r.out[-5000:]})
     # ---- B1: histories from the specification
     nh = 6000 if quick else 20000
-    hists, rg = gen_histories(d, nh, 18, 9, V.seed(), quick)
+    hists, rg = gen_histories(d, nh * 2 // 3, 18, 9, V.seed(), quick)
+    hists2, rg2 = gen_histories(d, nh // 3, 18, 9, V.seed() + 1, quick, shapes_only=True)      # shapes only: long add/move/delete/process patterns
+    hists += hists2
     ev.add_tlc('history generation (simulation of RouterApiMC)', rg)
     rnd = random.Random(V.seed())
     nsim = len(hists)
     hists = hists + butt_histories() * 2
+    nwall0 = len(hists)
+    hists = hists + wall_histories() * 2
     hf = os.path.join(d, 'hists.txt')
     cfgs = []
     with open(hf, 'w') as f:
@@ -122,6 +142,8 @@ def main(tier):
             if hi_ >= nsim:            # the butted-shape histories: polyline, once without and once with a segment penalty
                 mode, P = 0, (0 if (hi_ - nsim) < len(butt_histories()) else 10)
             nconn = 1 if any(o[0] == 4 and o[1] == 2 for o in h) is False and rnd.random() < 0.5 else 2
+            if hi_ >= nwall0:          # wall-and-post histories: one polyline connector, without and with a segment penalty
+                mode, P, nconn = 0, (0 if (hi_ - nwall0) < len(wall_histories()) else 3), 1
             cfgs.append((mode, P, nconn))
             flat = [x for o in h for x in o]
             f.write('%d %d %d %d %s\n' % (mode, P, nconn, len(h), ' '.join(map(str, flat))))
